@@ -1,68 +1,100 @@
 """C15 — generated names never collide; name fixing yields unique names only; bulk renaming is all-or-nothing.
 
-Decided by: Coq theorems (coq/theories/C15/Property.v) about three hand-written executable models in
-C15/Model.v, each tied to /repo on every run by a correspondence check evaluated inside Coq, plus property
-oracles that run the statement itself on the implementation.
+Decided by: Coq theorems (coq/theories/C15/Property.v, 16 theorems, all "Closed under the global context")
+about three hand-written executable models in C15/Model.v, each tied to /repo on every run by a
+correspondence check evaluated inside Coq (case files, `Eval vm_compute in (failing agree cases)`), plus
+property oracles that run the statement itself on the implementation and produce the replays.
 
 Models (C15/Model.v)
   (A) NameAuthority (_name_authority.py) + Graph.__init__/append/extend/insert_* -> astep/arun, gstep/grun.
-      Names are lists of code points; `val_<k>` / `node_<op>_<k>` use a decimal printer built on the
-      standard library's N.to_uint; the `while True` candidate loop has fuel |seen|+1.
-  (B) NameFixPass (passes/common/naming.py) over RecursiveGraphIterator (traversal.py): the traversal is
-      compiled to a flat event list exactly as the iterator calls the callbacks (every subgraph is entered
-      twice and exited twice: traversal.py:68 and :85), the pass is a stack machine over those events with
-      the scope stacks, seen_values, the two Counters, _find_and_record_next_unique_name (fuel |used|+1),
-      and the Value.name setter with initializer re-keying (pop + re-insert at the end; ValueError on a clash).
-  (C) _convenience.rename_values: dedup of pairs, grouping by graph, validation, pops, renames, re-adds,
-      each container operation with the exceptions it can raise (GraphInitializers.__setitem__/__delitem__).
+      Names are lists of code points; `val_<k>` / `node_<op>_<k>` use a decimal printer built on the standard
+      library's N.to_uint (injectivity from DecimalN.Unsigned.of_to); the `while True` candidate loop has
+      fuel |seen|+1 (pigeonhole proof gen_loop_spec: it never runs out).
+  (B) NameFixPass (passes/common/naming.py, AFTER fix 25cf9b5) over RecursiveGraphIterator (traversal.py): the
+      traversal is compiled to a flat event list exactly as the iterator calls the callbacks (every subgraph is
+      entered twice and exited twice: traversal.py:68 and :85); the pass is a stack machine over those events
+      with the two scope stacks, seen_values, the two Counters, the pre-scan _collect_existing_names (reserved
+      names), _find_and_record_next_unique_name (fuel |used|+|reserved|+1) and the Value.name setter with
+      initializer re-keying (pop + re-insert at the end; ValueError on a clash, state unchanged).
+  (C) _convenience.rename_values: dedup of pairs, grouping by graph, validation, pops, renames, re-adds, each
+      container operation with the exceptions it can raise (GraphInitializers.__setitem__/__delitem__).
 
-Theorems (Property.v; all closed under the global context)
-  (A) C15_gen_fuel_suffices, C15_fresh (value and node form: for every history, a generated name is outside
-      the seen set before the call, outside the initial seen set and differs from every name registered or
-      generated earlier), C15_monotone, C15_explicit_kept, C15_graph_history (lifting to the graph-level
-      operations: explicit names kept by Graph(...)/append/extend/insert_*, names given to unnamed objects
-      are outside the authority's seen set before the operation, the authority evolves by register calls only).
-  (B) C15_fix_total_refuted, C15_fix_keeps_unique_refuted, C15_fix_post_unsorted_refuted (witnesses replayed
-      on the implementation on every run, see known findings), C15_fix_fuel_suffices, C15_fix_only_names,
-      C15_fix_total_partial (no raise when no graph has initializers), C15_fix_value_step / C15_fix_post
-      (see Property.v for the exact strength and what is partial).
-  (C) C15_rename_all_or_nothing.
+Theorems (Property.v)
+  (A) full: C15_gen_fuel_suffices, C15_fresh, C15_fresh_node (for EVERY history of register calls with arbitrary
+      explicit names: a generated name is outside the seen set before the call, outside the initial set, and
+      differs from every name of its kind registered or generated earlier), C15_monotone, C15_explicit_kept,
+      C15_graph_adding / C15_graph_history (lifting to Graph(...)/append/extend/insert_*, also when the call
+      raises half way: explicit names kept, names given to unnamed objects are outside the authority's seen set
+      before the operation; the authority changes by register calls only, so C15_fresh covers the graph's life).
+  (B) C15_fix_fuel_suffices (full); C15_fix_total_partial (only ValueError of the initializer guard can end a
+      run - scope stacks never underflow, balanced events for every nesting by a custom induction; models without
+      initializers are never rejected; MISSING: fresh name never equals a key created earlier in the same run);
+      C15_fix_keeps_unique_partial (one _fix_graph_names run, ANY graph incl. unsorted/nested: a traversal-met
+      value with a non-empty name no other value carries keeps it; MISSING: node names, initializer-only values,
+      composition over functions); C15_fix_post_partial (the per-value step: non-empty name outside the scope's
+      used set, recorded, seen, nothing else touched, changed names avoid all pre-existing names; MISSING: the
+      assembly into per-graph distinctness under the well-scoped hypothesis); C15_fix_post_unsorted_refuted
+      (the statement without that hypothesis is false: known finding); the two former refutations are now
+      C15_fix_total_witness_fixed / C15_fix_keeps_unique_witness_fixed.
+      C15_fix_only_names has no theorem: in this model the only state of the pass IS names + initializer
+      dictionaries (structure is an immutable input), so the statement would hold by construction; it is checked
+      on the implementation by a structural snapshot in the oracle.
+  (C) full: C15_rename_all_or_nothing (RInv = initializers keyed by names + flags consistent; Raise => state
+      literally unchanged; Ok => every pair applied, other names unchanged, RInv again, same initializer sets,
+      same flags).  Example ex_state_RInv / ex_swap show the hypothesis is satisfiable and non-trivial.
+  ck.level = "proof": the principal theorems of (A) and (C) are proved at full strength; (B)'s principal
+  post-condition is partial (see above) and one clause is refuted on the code (known finding).
 
 Readings of the English (weaker reading taken where ambiguous)
   * "never equal any name that graph has registered or assigned before": per kind (value names against value
-    names, node names against node names) - the authority keeps two separate seen sets.
-  * "visible from that graph": for a subgraph of node n of graph p: p's inputs, outputs' names are not used;
-    the oracle uses p's inputs, initializers and the outputs of the nodes of p that precede n, recursively.
+    names, node names against node names) - the authority keeps two separate seen sets; a name set by the user
+    after the node was added is not "registered" until the node is added again.
+  * "visible from that graph": for a subgraph of node n of graph p: p's inputs, initializers and the outputs of
+    the nodes of p that precede n, recursively upwards.
   * "names that were already unique are kept": a non-empty name carried by exactly one value (resp. node) in
     the whole model (main graph, subgraphs and functions together) is still that object's name afterwards.
-  * "nothing but names has changed": structure, types, shapes, tensors objects and the *set* of initializers
-    of each graph; the dict order of initializers is not part of the claim (a rename re-inserts the entry).
+  * "nothing but names has changed": structure, types, shapes, tensor objects and the *set* of initializers of
+    each graph; the dict order of initializers is not part of the claim (a rename re-inserts the entry).
   * values "within a graph": its inputs, initializers and the outputs of its own nodes.
+  * Function bodies carry no initializers (FunctionProto cannot): not generated; NameFixPass skips them.
 
-Tie: see run(); coverage histograms are written to evidence/C15.json.
+Tie (every run; quick ~30 s): (A) 260 histories x <=30 ops on a real ir.Graph (ctor with inputs/initializers,
+  new nodes with explicit/None/generated-looking names, append/extend/insert_before/insert_after incl. foreign
+  nodes and re-adding, remove, renames) - outcome and changed/touched names after every op + all names at the
+  end vs grun; (B) 420 generated models (nested subgraphs via GRAPH/GRAPHS attributes, functions, missing /
+  empty / duplicated names from a colliding alphabet, values that are input and initializer, dangling and
+  unsorted references) - raise/ok, modified flag, every value and node name, every initializer dictionary in
+  order vs name_fix_pass; (C) 600 assignments (permutations, swaps, partial, fresh, colliding, duplicated
+  values, mismatched lengths, 1-2 graphs) - outcome and full state (names, dictionaries, flags, owners), also
+  after a Raise, vs rename_values.  thorough: 6000 / 12000 / 20000.
 
-Modelled, not verified: CPython str formatting of ints (decimal, no sign/padding) = N.to_uint; set/dict
-semantics (sets as duplicate-free lists, dicts as insertion-ordered association lists); object identity =
-handle; the backing tensor's name follows Value.name (not observed); SimpleNameGenerator only.
+Modelled, not verified: CPython int->str (decimal, no sign/padding) = N.to_uint; set/dict semantics (sets as
+  lists, dicts as insertion-ordered association lists); object identity = handle; the backing tensor's name
+  follows Value.name (not observed); SimpleNameGenerator only; TypeError paths of rename_values (typed away).
 
-Findings on the unchanged tree (known_findings.d/C15.json)
-  namefix-raises-initializer-collision   inputs [w], initializers [w, w_1] -> ValueError from the name setter
-  namefix-renames-unique-name            inputs x, x, x_1 -> x, x_1, x_1_1 (the unique x_1 is taken by a fresh name)
-  namefix-unsorted-outer-capture         subgraph reads an outer value produced by a later node: two values of
-                                         the outer graph keep the same name, modified=False
-  proposed fix for the first two: proposed_fixes/C15-namefix-reserve-existing-names.diff
+Findings (known_findings.d/C15.json)
+  fixed 25cf9b5  namefix-raises-initializer-collision   inputs [w], initializers [w, w_1] -> ValueError
+  fixed 25cf9b5  namefix-renames-unique-name            inputs x, x, x_1 -> x, x_1, x_1_1
+                 (my proposed_fixes/C15-namefix-reserve-existing-names.diff, committed unchanged; corpus/C15/b-*.json)
+  known          namefix-unsorted-outer-capture         a subgraph reads an outer value produced by a later node:
+                 two values of the outer graph keep the same name, modified=False.  A repair (name all node
+                 outputs of a graph when it is entered) changes the numbering of fresh names in sorted graphs and
+                 was not proposed.
 
-Mutants tried (scratch worktree, VERIF_REPO): see MUTANTS at the end of this docstring.
-
-MUTANTS
-  M1 _name_authority._unique_value_name: drop the `if name not in self._value_names` test (return first candidate)
-  M2 _name_authority.register_or_name_node: do not record explicit names (`add` only when generated)
-  M3 naming.enter_graph: new scope starts empty instead of a copy of the parent's names
-  M4 naming._find_and_record_next_unique_name: forget `used_names.add(new_name)`
-  M5 naming._process_value: do not add to seen_values when the name was kept
-  M6 rename_values: rename before popping the initializers (wrong order of two steps)
-  M7 rename_values: validation ignores collisions with initializers outside the rename set
-  results are recorded at the bottom of this file (MUTANT_RESULTS).
+Mutants tried in a scratch worktree (VERIF_REPO), quick tier, seed 0; "oracle X" = concrete replay from part X
+  M1  _unique_value_name returns the first candidate without the seen test     VIOLATION (oracle A)
+  M2  register_or_name_node records only generated names                        VIOLATION (oracle A)
+  M3  enter_graph starts the new scope empty instead of a copy of the parent    VIOLATION (oracle B: shadow/dup)
+  M4  _find_and_record_next_unique_name forgets used_names.add                  VIOLATION (oracle B: dup_node/dup_value)
+  M5  _fix_duplicate_value_name does not record a kept name                     VIOLATION (oracle B: dup_value)
+  M6  rename_values renames before popping the initializers                     VIOLATION (oracle C: raised, state changed)
+  M7  rename_values validation ignores outside collisions for >=2 pairs         VIOLATION (oracle C: initializer lost)
+  M9  exit_graph does not pop the value scope (over-renames, property intact)   VIOLATION ... no-failing-input-found
+  M10 rename_values forgets seen_targets[name] = value                          VIOLATION (oracle C: initializer lost)
+  M11 _process_value re-processes seen values that are not graph inputs         VIOLATION (oracle B: unique_lost)
+  M12 insert_before skips _set_node_graph_to_self_and_assign_names              VIOLATION (oracle A: left unnamed)
+  M13 (after the fix) reserved names ignored again in the while condition       VIOLATION (oracle B: raises / unique_lost)
+  an equivalent mutant (renaming only the non-initializers before the pops) is correctly not reported.
 """
 
 from __future__ import annotations
@@ -1141,6 +1173,11 @@ def run(ck) -> None:
     ck.assumptions += ["CPython 3.12 dict insertion order", "values/nodes are ir.Value/ir.Node, names are str or None"]
     ck.coverage["rule"] = ("A: histories in which the authority generated >= 2 names; B: models with duplicated/missing names "
                            "or nested scopes that the pass modified; C: assignments that touch an initializer")
+    ck.notes.append("level=proof: C15_fresh* (A) and C15_rename_all_or_nothing (C) are proved at full strength for all "
+                    "histories/assignments; for NameFixPass (B) C15_fix_fuel_suffices is full, C15_fix_total_partial, "
+                    "C15_fix_keeps_unique_partial and C15_fix_post_partial are partial (what is missing is stated beside each "
+                    "theorem in Property.v) and C15_fix_post without the well-scoped hypothesis is refuted on the code "
+                    "(known finding namefix-unsorted-outer-capture); the tie and the oracle cover the full statement by sampling")
     ck.prove()
     corpus = _load_corpus()
     q = not ck.thorough
